@@ -8,6 +8,7 @@ CHECKS = {
     "C08": fixedchk.c08,
     "C09": c09.run,
     "C10": c10.run,
+    "C12": fixedchk.c12,
     "C16": c16.run,
     "C17": fixedchk.c17,
 }
